@@ -75,8 +75,6 @@ var docExceptions = map[string]struct {
 	"(*keyset.MemReaderWriter).ReadEncrypted":                                 {[]int{0}, false, true, true, "in-memory keyset.Reader/Writer: it holds the keyset object it was given and hands the same object back - that is its documented purpose"},
 	"(*keyset.MemReaderWriter).Write":                                         {[]int{0, 1}, false, true, false, "in-memory keyset.Reader/Writer: it holds the keyset object it was given and hands the same object back - that is its documented purpose"},
 	"(*keyset.MemReaderWriter).WriteEncrypted":                                {[]int{0, 1}, false, true, false, "in-memory keyset.Reader/Writer: it holds the keyset object it was given and hands the same object back - that is its documented purpose"},
-	"aead.NewKMSEnvelopeAEAD2":                                                {[]int{0}, false, true, false, "KNOWN FINDING (not a documented exception): keeps the caller's *tinkpb.KeyTemplate without a copy; mutating the template afterwards changes later Encrypt calls"},
-	"aead.NewKMSEnvelopeAEADWithContext":                                      {[]int{0}, false, true, false, "KNOWN FINDING (not a documented exception): keeps the caller's *tinkpb.KeyTemplate without a copy; mutating the template afterwards changes later Encrypt calls"},
 	"signature/subtle.NewED25519SignerFromPrivateKey":                         {[]int{0}, false, true, false, "takes a POINTER to the caller's ed25519.PrivateKey and keeps it: sharing is what the signature says"},
 	"signature/subtle.NewED25519VerifierFromPublicKey":                        {[]int{0}, false, true, false, "takes a POINTER to the caller's ed25519.PublicKey and keeps it: sharing is what the signature says"},
 }
